@@ -289,6 +289,7 @@ func (w *World) checkNumericBuiltins(P string, f *Facts, r *Roles) {
 	// count
 	if fn := single("count"); fn != nil {
 		okAssert, okLen, okErr := false, false, false
+		helperErr := false
 		var asserted ssa.Value
 		allInstrs(fn, func(in ssa.Instruction) {
 			if ta, ok := in.(*ssa.TypeAssert); ok && ta.CommaOk && types.Identical(ta.AssertedType, r.NodeSet) {
@@ -298,6 +299,16 @@ func (w *World) checkNumericBuiltins(P string, f *Facts, r *Roles) {
 				}
 			}
 		})
+		// or an argument helper of the package does the assertion and hands the node-set back with an error
+		if !okAssert {
+			if c, hOK, hErr := nodeSetArgHelper(fn, r); c != nil && hOK {
+				okAssert = true
+				asserted = c
+				if hErr {
+					helperErr = true
+				}
+			}
+		}
 		allInstrs(fn, func(in ssa.Instruction) {
 			ret, ok := in.(*ssa.Return)
 			if !ok || len(ret.Results) != 2 {
@@ -316,6 +327,7 @@ func (w *World) checkNumericBuiltins(P string, f *Facts, r *Roles) {
 				okErr = true
 			}
 		})
+		okErr = okErr || helperErr
 		w.check(P, "R06.4", "builtin count", fn.Pos(), okAssert && okLen && okErr, fmt.Sprintf("argument asserted to NodeSet: %v; returns len of it: %v; error path for other types: %v", okAssert, okLen, okErr))
 	}
 	// floor / ceiling
@@ -362,6 +374,11 @@ func (w *World) checkNumericBuiltins(P string, f *Facts, r *Roles) {
 				okAssert = true
 			}
 		})
+		if !okAssert {
+			if c, hOK, _ := nodeSetArgHelper(fn, r); c != nil && hOK {
+				okAssert = true
+			}
+		}
 		// accumulator: a float phi updated by ADD of a Number() call inside a loop
 		okAcc := false
 		accDetail := "no float64 accumulator `acc = acc + x.Number()` found"
@@ -589,4 +606,56 @@ func (w *World) isNumberOfNode(v ssa.Value, depth int) bool {
 		}
 	})
 	return all && n > 0
+}
+
+// nodeSetArgHelper: fn obtains its node-set argument from a helper of the package that is handed the argument list,
+// asserts the argument to NodeSet, returns it on success and an error otherwise: (the call, assertion present,
+// error path present).
+func nodeSetArgHelper(fn *ssa.Function, r *Roles) (*ssa.Call, bool, bool) {
+	var out *ssa.Call
+	okA, okE := false, false
+	args := fn.Params[len(fn.Params)-1]
+	allInstrs(fn, func(in ssa.Instruction) {
+		c, ok := in.(*ssa.Call)
+		if !ok || out != nil {
+			return
+		}
+		h := staticCallee(c)
+		if h == nil || fnPkgKey(h) != "exec" || h.Signature.Results().Len() != 2 || !types.Identical(h.Signature.Results().At(0).Type(), r.NodeSet) {
+			return
+		}
+		passes := false
+		for _, a := range c.Call.Args {
+			if a == ssa.Value(args) {
+				passes = true
+			}
+		}
+		if !passes {
+			return
+		}
+		var ta *ssa.TypeAssert
+		allInstrs(h, func(in2 ssa.Instruction) {
+			if t, ok := in2.(*ssa.TypeAssert); ok && t.CommaOk && types.Identical(t.AssertedType, r.NodeSet) {
+				ta = t
+			}
+		})
+		if ta == nil {
+			return
+		}
+		allInstrs(h, func(in2 ssa.Instruction) {
+			ret, ok := in2.(*ssa.Return)
+			if !ok || len(ret.Results) != 2 {
+				return
+			}
+			if isNilConst(ret.Results[1]) {
+				if ex, ok := ret.Results[0].(*ssa.Extract); ok && ex.Tuple == ssa.Value(ta) && ex.Index == 0 {
+					okA = true
+				}
+			} else if isNilConst(ret.Results[0]) {
+				okE = true
+			}
+		})
+		out = c
+	})
+	return out, okA, okE
 }
